@@ -137,6 +137,8 @@ ADMISSION_SCENARIOS = [
     dict(limit=2, steps=[dict(dir='out'), dict(dir='in'), dict(dir='in'), dict(dir='in', affinity='allowed')]),
     dict(limit=0, steps=[dict(dir='in'), dict(dir='in', affinity='allowed'), dict(dir='out'), dict(dir='in', affinity='never')]),
     dict(limit=None, steps=[dict(dir='in'), dict(dir='in'), dict(dir='in', affinity='never'), dict(dir='in')]),
+    # every affinity BELOW the limit, then at it
+    dict(limit=3, steps=[dict(dir='in', affinity='never'), dict(dir='in'), dict(dir='in', affinity='never'), dict(dir='in', affinity='high'), dict(dir='in'), dict(dir='in'), dict(dir='in', affinity='never'), dict(dir='in', affinity='allowed')]),
 ]
 
 
@@ -304,3 +306,19 @@ def decode_sweep(env):
     return dict(name='decode_sweep', validates='totality of the real request / response decoders (including bincode and tokio-util) on %s byte strings: every short header frame over a 4-letter alphabet, every truncation and single-byte corruption of two valid messages, huge length prefixes' % got.get('inputs'),
                 cases=got.get('inputs', 0) * 2, failed=fails, ok=not fails, props=['C06', 'C07'],
                 clause='decoding arbitrary bytes never panics; a malformed, truncated or oversized request is rejected with an error')
+
+
+def oversize_confined(env):
+    """C15 confinement on real networks: an oversized request / response fails that RPC only; the connection stays up and usable"""
+    fails, cases = [], 0
+    for sc in (dict(callee_limit=1024, caller_limit=None, body=1025), dict(callee_limit=1024, caller_limit=None, body=200000),
+               dict(callee_limit=None, caller_limit=1024, body=1025), dict(callee_limit=1024, caller_limit=1024, body=1025),
+               dict(callee_limit=1024, caller_limit=None, body=100, response_body=5000)):
+        got = _run('oversize_confined', sc, env)
+        cases += 1
+        ok = got.get('oversized_rpc_failed') is True and got.get('still_connected') is True and got.get('followup_ok') is True and got.get('elapsed_ms', 10**9) < 4000
+        if not ok:
+            fails.append(dict(scenario='oversize_confined', args=sc, expected=dict(oversized_rpc_failed=True, still_connected=True, followup_ok=True), observed=got))
+    return dict(name='oversize_confined', validates='that refusing an oversized frame ends only that RPC (stream), on real networks',
+                cases=cases, failed=fails, ok=not fails, props=['C15', 'C06'],
+                clause='a request or response exceeding the local maximum is refused with an error for that RPC only (never a hang, a truncation or a torn-down connection)')
